@@ -463,9 +463,13 @@ def C28(ctx):
     fams = {e.get("cls") for e in evs if e["k"] in ("text", "addr", "lid")}
     need = {"hrp-swap", "bech32-not-m", "nonzero-padding", "extra-group", "upper-hrp-only", "no-suffix-network", "upper", "substitute",
             "len0", "len1", "len29", "len31", "first0", "first255", "string:64", "string:65", "bytes:64", "bytes:65", "int:boundary", "int:2^64",
-            "ruid:extra-hyphen-multibyte", "crafted", "from-id"}
+            "ruid:extra-hyphen-multibyte", "crafted", "from-id", "ruid:split-canonical", "ruid:missing-hyphen-1", "ruid:missing-hyphen-2",
+            "ruid:missing-hyphen-3", "ruid:extra-hyphen", "ruid:hyphen-3-replaced", "ruid:hyphen-3-late", "ruid:hyphen-3-early", "ruid:hyphen-1-late",
+            "ruid:65-hex", "ruid:63-hex"} | {"ruid:split:%d:%d:%d" % (a, b, c) for a in (-1, 0, 1) for b in (-1, 0, 1) for c in (-1, 0, 1) if (a, b, c) != (0, 0, 0)}
     if not need <= fams:
         raise ToolError("recorded address / id traffic lacks families %s" % sorted(need - fams))
+    if not any(e["k"] == "lid" and e.get("cls") == "ruid:split-canonical" and e["r"]["ok"] for e in evs):
+        raise ToolError("the canonical RUID split was not accepted by the code")
     if {tuple(e["sfx"]) for e in evs if e["k"] == "addr" and e.get("encok")} and len({(tuple(e["sfx"]), e["data"][0]) for e in evs if e["k"] == "addr" and e.get("encok") and len(e["data"]) == 30}) < 110:
         raise ToolError("recorded addresses do not cover every entity type on every network")
     by = lambda pred: copy.deepcopy(next(e for e in evs if pred(e)))
